@@ -9,24 +9,90 @@ def pin_vectors():
         raise vlib.ToolError("Threefish.tla / Skein.tla no longer reproduce the published vectors")
 
 
+NR = {32: 72, 64: 72, 128: 80}
+
+
+def craft_vectors(c):
+    """Spec -> impl: CraftTF.tla turns (key, tweak, round boundary d, internal state e) requests into plaintext / ciphertext
+    inputs whose encryption / decryption passes through state e in front of round d.  Returns the path of a vectors file."""
+    import os, random, json, re
+    rnd = random.Random(c.seed * 7919 + 17)
+    reqs, tags = [], []
+    for size in (32, 64, 128):
+        nw = size // 8
+        for d in range(0, NR[size] + 1):
+            if not c.thorough and (d + c.seed) % 2:
+                continue
+            key = [rnd.randrange(256) for _ in range(size)]
+            t0, t1 = rnd.getrandbits(64), rnd.getrandbits(64)
+            for kind in ("zero-odd", "zero-even", "equal", "ones") + (("allzero", "zero-all-odd") if d % 8 == (c.seed % 8) or c.thorough else ()):
+                words = [rnd.getrandbits(64) for _ in range(nw)]
+                j = (d + rnd.randrange(nw // 2)) % (nw // 2)
+                if kind == "zero-odd":
+                    words[2 * j + 1] = 0            # second MIX input 0: outputs equal
+                elif kind == "zero-even":
+                    words[2 * j] = 0                # first MIX input 0
+                elif kind == "equal":
+                    words[2 * j + 1] = words[2 * j]
+                elif kind == "ones":
+                    words[2 * j + rnd.randrange(2)] = 2 ** 64 - 1
+                elif kind == "allzero":
+                    words = [0] * nw
+                else:
+                    words = [0 if i % 2 else w for i, w in enumerate(words)]
+                e = [b for w in words for b in w.to_bytes(8, "little")]
+                reqs.append({"key": key, "t0": [(t0 >> (16 * i)) & 0xffff for i in range(4)], "t1": [(t1 >> (16 * i)) & 0xffff for i in range(4)], "d": d, "e": e})
+                tags.append((size, key, t0, t1, "craft-d%d-%s" % (d, kind)))
+    wd = c.workdir()
+    req = os.path.join(wd, "craft-req.ndjson")
+    vlib.write_ndjson(req, reqs)
+    r = vlib.run_tlc("CraftTF", env={"TRACE": req}, workers=12, timeout=3000, tag="craft")
+    vlib.tlc_must_succeed(r, "CraftTF")
+    got = {}
+    for ln in r["out"].splitlines():
+        ln = ln.strip()
+        if ln.startswith('"{') and 'pt' in ln:      # PrintT of a string value: quoted, inner quotes escaped
+            o = json.loads(json.loads(ln))
+            got[o["l"]] = o
+    if len(got) != len(reqs):
+        raise vlib.ToolError("CraftTF produced %d of %d crafted inputs" % (len(got), len(reqs)))
+    path = os.path.join(wd, "craft-vectors.txt")
+    with open(path, "w") as f:
+        for i, (size, key, t0, t1, tag) in enumerate(tags):
+            o = got[i + 1]
+            for which in ("pt", "ct"):
+                f.write("%d %s %d %d %s %s-%s\n" % (size, bytes(key).hex(), t0, t1, bytes(o[which]).hex(), tag, which))
+    c.cov["crafted_internal_state_inputs"] = 2 * len(reqs)
+    return path
+
+
 def run_tf(c, mode):
-    import os
+    import os, json
     pin_vectors()
     wd = c.workdir()
     allrecs = []
+    vectors = craft_vectors(c)
     builds = ["std-rel", "nounroll-rel", "std-dbg"] + (["nosimd-dbg"] if c.thorough else [])
     for b in builds:
         binary = vlib.build(b)
         trace = os.path.join(wd, "tf-%s.ndjson" % b)
         vlib.run_harness(binary, ["tf", "--seed", str(c.seed), "--tier", c.tier, "--cfg", b], out=trace)
         allrecs += vlib.read_ndjson(trace)
+        if b in ("std-rel", "nounroll-rel"):
+            vlib.run_harness(binary, ["tf-vectors", "--script", vectors, "--cfg", b], out=trace)
+            allrecs += vlib.read_ndjson(trace)
 
     def mutate(e):
         if mode == "enc":
             e["y"][3] ^= 2
         else:
             e["z"][5] ^= 8
-    vlib.validate_stateless(c, "TraceTF", allrecs, lambda e: {"size": e["size"], "tag": e["tag"], "cfg": e["cfg"], "res": e["res"].split(":")[0]},
+    # identical (input, outcome) events from different builds are validated once
+    uniq = {}
+    for e in allrecs:
+        uniq.setdefault(json.dumps({k: v for k, v in e.items() if k not in ("cfg", "tag")}, sort_keys=True), e)
+    c.cov["distinct_outcomes_validated_by_tlc"] = len(uniq)
+    vlib.validate_stateless(c, "TraceTF", list(uniq.values()), lambda e: {"size": e["size"], "tag": e["tag"], "cfg": e["cfg"], "res": e["res"].split(":")[0]},
                             mutate, "threefish %s" % mode, env={"MODE": mode})
     c.add_events(allrecs, key=lambda e: (e["size"], e["key"], e["t0"], e["t1"], e["x"], e["ctor0"]), sample=1)
     c.cov["configurations"] = builds
